@@ -123,6 +123,8 @@ theorem skel_decodeState_ok : skel_decodeState = ([
   "return parsedState[0], parsedState[1], nil"] : List String) := rfl
 
 theorem skel_IsEndpointAllowed_ok : skel_IsEndpointAllowed = ([
+  "if hostname == \"\"",
+  "return false",
   "SplitHostPort",
   "if allowedHost == \"\"",
   "if isHostnameAllowed(hostname, allowedHost)",
